@@ -700,6 +700,23 @@ theorem lut_access_standard_item (d0 first : Int) (bits : Nat) (data : List Nat)
     lutData ⟨[d0, first, (bits : Int)], encodeEntries bits data ++ (if pad then [0] else [])⟩ = .ok data :=
   (lut_access d0 first bits data pad hb hv hlen hd0 hpad).1
 
+/-- `LUT.get_inverted_lut_data` computes `min + max - data` in the table's own unsigned type, where `min + max`
+may wrap modulo 2^bits and the subtraction wraps again: the two wrap-arounds cancel, the result is the number
+`min + max - v` the model (`invertedLut`) uses, for every entry between min and max. -/
+theorem inverted_lut_wraparound_harmless (M mn mx v : Nat) (h1 : mn ≤ v) (h2 : v ≤ mx) (h3 : mx < M) :
+    ((mn + mx) % M + M - v) % M = mn + mx - v := by
+  have hM : 0 < M := by omega
+  by_cases hs : mn + mx < M
+  · rw [Nat.mod_eq_of_lt hs]
+    have : mn + mx + M - v = (mn + mx - v) + M := by omega
+    rw [this, Nat.add_mod_right, Nat.mod_eq_of_lt (by omega)]
+  · have hlt : mn + mx - M < M := by omega
+    have e : (mn + mx) % M = mn + mx - M := by
+      rw [Nat.mod_eq_sub_mod (by omega), Nat.mod_eq_of_lt hlt]
+    rw [e]
+    have : mn + mx - M + M - v = mn + mx - v := by omega
+    rw [this, Nat.mod_eq_of_lt (by omega)]
+
 /-! ## Clause: selection by index, negative index, explanation, label or unit -/
 
 /-- positions: Python indexing (0..n-1, -1..-n), anything else is refused -/
